@@ -5,7 +5,7 @@ D=$(readlink -f "$1"); OUT=$2; W=/tmp/sv.$$
 {
 git -C /repo worktree add -q --detach $W HEAD || exit 2
 cd $W
-demo_run() { gcc -O1 -I include -I src "$D/demo.c" -L _build/src -lcimba -lm -lpthread -o /tmp/sv_demo.$$ 2>/dev/null && LD_LIBRARY_PATH=_build/src timeout 120 /tmp/sv_demo.$$ >/tmp/sv_demo_out.$$ 2>&1; echo $?; }
+demo_run() { gcc -O1 -I include -I src "$D/demo.c" -L _build/src -lcimba -lm -lpthread -o /tmp/sv_demo.$$ 2>/dev/null && LD_LIBRARY_PATH=_build/src timeout ${DEMO_TIMEOUT:-120} /tmp/sv_demo.$$ >/tmp/sv_demo_out.$$ 2>&1; echo $?; }
 meson setup _build >/dev/null 2>&1 && meson compile -C _build >/dev/null 2>&1 || { echo "BASE BUILD FAILED"; }
 echo "demo_without_patch_exit=$(demo_run)"; tail -2 /tmp/sv_demo_out.$$ | cut -c1-200
 git apply "$D/patch.diff" 2>/dev/null || patch -p1 -s --no-backup-if-mismatch < "$D/patch.diff" || echo "PATCH DOES NOT APPLY"
